@@ -121,6 +121,9 @@ type EncodeOpts struct {
 	Replace func(s *schema.Struct, f *schema.Field) []byte
 	// Dup, when non-nil and true, writes the field twice (a repeated occurrence).
 	Dup func(s *schema.Struct, f *schema.Field) bool
+	// After, when non-nil and returning bytes, writes them right after the field's (last)
+	// occurrence - e.g. a further occurrence of the id under another wire type.
+	After func(s *schema.Struct, f *schema.Field) []byte
 }
 
 func Encode(s *schema.Struct, v reflect.Value) []byte {
@@ -163,6 +166,9 @@ func appendStruct(b []byte, s *schema.Struct, v reflect.Value, o *EncodeOpts) []
 		if o != nil && o.Dup != nil && o.Dup(s, f) {
 			b = append(b, f.T.WT(), byte(f.ID>>8), byte(f.ID))
 			b = appendValue(b, f.T, v.Field(f.Index), o)
+		}
+		if o != nil && o.After != nil {
+			b = append(b, o.After(s, f)...)
 		}
 	}
 	if s.HasUnknown {
